@@ -279,7 +279,7 @@ func init() {
 				if detail == "unjudged" {
 					w.Skipped++
 				}
-				if w.Evals%40009 == 0 {
+				if w.Evals%40009 == 1 {
 					w.Sample(map[string]any{"note": pc.Case.Note, "fork": pc.Case.ForkName, "payload": fmt.Sprintf("%x", []byte(pc.Case.Input)), "host_calls": o.Log.Calls, "ok": o.OK})
 				}
 				if sig != "" {
